@@ -2,6 +2,7 @@
 // asl code against small RFC 4648 / FIPS 180-4 / RFC 3986 references (std:: only). The references are
 // themselves cross-checked against python3's base64, binascii, urllib.parse and hashlib on a large
 // deterministic subset in every run (tools/ref_c15.py), so the trusted base is python's stdlib.
+// Before the passes the harness proves its memory oracle live (asan_selftest); witness counters (w.*) count inputs that reached the code under test.
 #include <asl/util.h>
 #include <asl/Http.h>
 #include <asl/SHA1.h>
@@ -317,16 +318,33 @@ static void decoded_is(const ByteArray& r, const Bytes& d, const char* sig, D wh
 	if (asan(strcmp(sig, "b64_explicit_len") == 0 ? sig : "b64_oob", what, kase)) return;
 	if (!same(r, d)) bad(sig, what() + " = " + showarr(r) + ", expected [" + fmt("%d", (int)d.size()) + " bytes] " + vf::hex(d.substr(0, 24)), kase);
 }
+// the Array_<byte,N> overloads (how a SHA1::Hash is printed). The object is a heap block of exactly N bytes, so that a length other than N reads out of bounds
+template <int N>
+static void check_fixed(const Bytes& d, const std::string& text, const std::string& htext, const std::string& kase) {
+	static_assert(sizeof(Array_<byte, N>) == N, "Array_<byte,N> is N bytes");
+	Array_<byte, N>* a = new Array_<byte, N>;
+	memcpy(a->ptr(), d.data(), N);
+	const Array_<byte, N>& ca = *a;
+	String e = encodeBase64(ca);
+	String h = encodeHex(ca);
+	vf::add(C_EVAL, 2);
+	vf::add(W_ARRN); if (N == 20) vf::add(W_ARR20);
+	if (!asan("b64_oob", W(fmt("encodeBase64 / encodeHex(Array_<byte,%d> ", N) + vf::hex(d) + ")"), kase)) {
+		if (vfx::S(e) != text) bad("b64_encode", fmt("encodeBase64(Array_<byte,%d> ", N) + vf::hex(d) + ") = " + show(vfx::S(e)) + ", RFC 4648 text is " + show(text), kase);
+		if (vfx::S(h) != htext) bad("hex_encode", fmt("encodeHex(Array_<byte,%d> ", N) + vf::hex(d) + ") = " + show(vfx::S(h)) + ", expected " + show(htext), kase);
+	}
+	delete a;
+}
 static void check_array(const Bytes& d, const std::string& kase, bool full) {
 	setcur(kase, "crash");
 	vf::add(C_DISTINCT);
-	vf::add(W_TAIL[d.size() % 3]);
 	int n = (int)d.size();
 	const std::string text = ref_b64enc(d), htext = ref_hexenc(d);
 	if (form_on(F_ENCODE)) {
 		Tight t(d);
 		String e = encodeBase64(t.p, n);
 		vf::add(C_EVAL);
+		vf::add(W_TAIL[d.size() % 3]);
 		if (!asan("b64_oob", W("encodeBase64(ptr," + fmt("%d", n) + ")"), kase) && vfx::S(e) != text)
 			bad("b64_encode", "encodeBase64(" + vf::hex(d.substr(0, 24)) + (n > 24 ? "..." : "") + fmt(" [%d bytes]) = ", n) + show(vfx::S(e)) + ", RFC 4648 text is " + show(text), kase);
 		String h = encodeHex(t.p, n);
@@ -345,6 +363,14 @@ static void check_array(const Bytes& d, const std::string& kase, bool full) {
 				String e3 = encodeBase64(s);
 				vf::add(C_EVAL);
 				if (!asan("b64_oob", W("encodeBase64(String)"), kase) && vfx::S(e3) != text) bad("b64_encode", "encodeBase64(String " + show(d) + ") = " + show(vfx::S(e3)) + ", RFC 4648 text is " + show(text), kase);
+			}
+			switch (n) { // fixed-size array overloads
+			case 1: check_fixed<1>(d, text, htext, kase); break;
+			case 2: check_fixed<2>(d, text, htext, kase); break;
+			case 3: check_fixed<3>(d, text, htext, kase); break;
+			case 4: check_fixed<4>(d, text, htext, kase); break;
+			case 20: check_fixed<20>(d, text, htext, kase); break;
+			default: break;
 			}
 		}
 	}
@@ -366,17 +392,34 @@ static void check_array(const Bytes& d, const std::string& kase, bool full) {
 		{ vfx::FlushBuf fb(text); decoded_is(decodeBase64(fb.p), d, "b64_decode", W("decodeBase64(char* " + show(text) + ")"), kase); }
 		{ vfx::FlushBuf fb(text); decoded_is(decodeBase64(fb.p, (int)text.size()), d, "b64_decode", W("decodeBase64(char* " + show(text) + fmt(", %d)", (int)text.size())), kase); }
 	}
-	if (n > 6 && form_on(F_B64_STRING)) { // longer texts: the usual line-wrapped layouts (short texts get every insertion in pass W)
+	if (n > 6) { // longer texts: the usual line-wrapped layouts (short texts get every insertion in pass W)
 		const char* seps[] = { "\r\n", "\n", " " };
 		int every[] = { 76, 64, 1 };
 		for (int l = 0; l < 3; l++) {
 			std::string w;
 			for (size_t i = 0; i < text.size(); i++) { if (i && i % every[l] == 0) w += seps[l]; w += text[i]; }
 			w += seps[l];
-			String t = vfx::A(w);
-			vfx::Flush fl(t);
-			vf::add(W_WS);
-			decoded_is(decodeBase64(t), d, "b64_ws", W(fmt("decodeBase64(text of %d bytes with %s every %d characters) ", n, l == 0 ? "CRLF" : l == 1 ? "LF" : "a space", every[l]) + show(w)), kase);
+			auto lay = [&]() { return fmt("text of %d bytes with %s every %d characters", n, l == 0 ? "CRLF" : l == 1 ? "LF" : "a space", every[l]); };
+			setsig("crash");
+			if (form_on(F_B64_STRING)) {
+				String t = vfx::A(w);
+				vfx::Flush fl(t);
+				decoded_is(decodeBase64(t), d, "b64_ws", W("decodeBase64(" + lay() + ") " + show(w)), kase);
+				vf::add(W_WS);
+			}
+			if (n > 4096) continue; // the explicit-length forms of the layouts: every length of the per-length sweep
+			int wn = (int)w.size();
+			setsig("b64_explicit_len");
+			if (form_on(F_B64_N_NUL)) { // the wrapped text is the first wn characters of a longer buffer
+				vfx::FlushBuf fb(w + "QUJDRA==");
+				decoded_is(decodeBase64(fb.p, wn), d, "b64_explicit_len", W("decodeBase64(char* " + lay() + fmt(" followed by \"QUJDRA==\", n=%d) ", wn) + show(w)), kase);
+				vf::add(W_WS_N); if (w.size() >= text.size() + 4) vf::add(W_WS_N4);
+			}
+			if (form_on(F_B64_N_TIGHT)) {
+				Tight tt(w);
+				decoded_is(decodeBase64((const char*)tt.p, wn), d, "b64_explicit_len", W("decodeBase64(unterminated buffer, " + lay() + fmt(", n=%d) ", wn) + show(w)), kase);
+				vf::add(W_WS_N);
+			}
 		}
 	}
 	setsig("b64_explicit_len"); // a crash from here on is the explicit-length form running past n
@@ -400,11 +443,26 @@ static void check_ws_text(const std::string& w, const std::string& kase) {
 	std::string st = strip_ws(w);
 	if (!ref_b64dec(st, d)) return; // replay of a hand-written case that is not valid Base64: nothing is demanded here
 	vf::add(C_DISTINCT);
-	if (st.size() != w.size()) vf::add(W_WS);
+	size_t nws = w.size() - st.size();
 	size_t eq = w.find('=');
-	if (eq != std::string::npos && (w.find_first_of(" \t\r\n", eq) != std::string::npos || (eq && is_ws(w[eq - 1])))) vf::add(W_WS_PAD);
-	if (form_on(F_B64_STRING)) { String t = vfx::A(w); vfx::Flush fl(t); decoded_is(decodeBase64(t), d, "b64_ws", W("decodeBase64(String " + show(w) + ")"), kase); }
-	if (form_on(F_B64_CHARP)) { vfx::FlushBuf fb(w); decoded_is(decodeBase64(fb.p), d, "b64_ws", W("decodeBase64(char* " + show(w) + ")"), kase); }
+	bool wspad = eq != std::string::npos && (w.find_first_of(" \t\r\n", eq) != std::string::npos || (eq && is_ws(w[eq - 1])));
+	bool seen = false; // the witnesses count texts that reached the decoder in at least one form
+	auto witness = [&]() { if (seen) return; seen = true; if (nws) vf::add(W_WS); if (wspad) vf::add(W_WS_PAD); };
+	if (form_on(F_B64_STRING)) { String t = vfx::A(w); vfx::Flush fl(t); decoded_is(decodeBase64(t), d, "b64_ws", W("decodeBase64(String " + show(w) + ")"), kase); witness(); }
+	if (form_on(F_B64_CHARP)) { vfx::FlushBuf fb(w); decoded_is(decodeBase64(fb.p), d, "b64_ws", W("decodeBase64(char* " + show(w) + ")"), kase); witness(); }
+	// explicit length: the text (whitespace included) is exactly the first |w| characters at the pointer
+	int wn = (int)w.size();
+	setsig("b64_explicit_len");
+	if (form_on(F_B64_N_NUL)) {
+		vfx::FlushBuf fb(w + "QUJDRA==");
+		decoded_is(decodeBase64(fb.p, wn), d, "b64_explicit_len", W("decodeBase64(char* " + show(w + "QUJDRA==") + fmt(", n=%d)", wn)), kase);
+		witness(); if (nws) vf::add(W_WS_N); if (nws >= 4) vf::add(W_WS_N4);
+	}
+	if (form_on(F_B64_N_TIGHT)) {
+		Tight tt(w);
+		decoded_is(decodeBase64((const char*)tt.p, wn), d, "b64_explicit_len", W("decodeBase64(unterminated buffer " + show(w) + fmt(", n=%d)", wn)), kase);
+		witness(); if (nws) vf::add(W_WS_N);
+	}
 }
 static const char WS[] = " \n\r\t";
 // all ways of inserting up to k whitespace characters into text (insertion points non-decreasing)
@@ -437,23 +495,33 @@ static void check_b64_text(const std::string& s) {
 		sym++;
 		if (c == '=') pads++; else { if (pads) padmid = true; if (b64val(c) < 0) junk++; }
 	}
-	if (L < 4) vf::add(W_LT4);
-	if (sym % 4) vf::add(W_LEFTOVER);
-	if (pads && pads == sym) vf::add(W_PADONLY);
-	if (padmid) vf::add(W_PADMID);
-	if (junk) vf::add(W_JUNK);
-	if (form_on(F_B64_STRING)) { String t = vfx::A(s); vfx::Flush fl(t); malformed_result(decodeBase64(t), "b64_oob", W("decodeBase64(String " + show(s) + ")"), kase); }
+	bool hi = false, ctl = false; // bytes outside printable ASCII: they index the upper half of the inverse table / go through the char classifiers
+	for (int i = 0; i < L; i++) { unsigned char c = s[i]; if (c >= 0x80) hi = true; if (c == 0x7f || (c < 0x20 && !is_ws((char)c))) ctl = true; }
+	bool seen = false; // the witnesses count texts that reached the decoder in at least one form
+	auto witness = [&]() {
+		if (seen) return;
+		seen = true;
+		if (L < 4) vf::add(W_LT4);
+		if (sym % 4) vf::add(W_LEFTOVER);
+		if (pads && pads == sym) vf::add(W_PADONLY);
+		if (padmid) vf::add(W_PADMID);
+		if (junk) vf::add(W_JUNK);
+		if (hi) vf::add(W_B64_HI);
+		if (ctl) vf::add(W_B64_CTL);
+	};
+	if (form_on(F_B64_STRING)) { String t = vfx::A(s); vfx::Flush fl(t); malformed_result(decodeBase64(t), "b64_oob", W("decodeBase64(String " + show(s) + ")"), kase); witness(); }
 	vfx::FlushBuf fb(s);
-	if (form_on(F_B64_CHARP)) malformed_result(decodeBase64(fb.p), "b64_oob", W("decodeBase64(char* " + show(s) + ")"), kase);
+	if (form_on(F_B64_CHARP)) { malformed_result(decodeBase64(fb.p), "b64_oob", W("decodeBase64(char* " + show(s) + ")"), kase); witness(); }
 	setsig("b64_explicit_len");
 	for (int n = 0; n < L; n++) { // the text is the first n characters of a longer NUL-terminated buffer
 		if (!form_on(F_B64_N_NUL)) break;
-		vf::add(W_NLT);
 		malformed_result(decodeBase64(fb.p, n), "b64_explicit_len", W("decodeBase64(char* " + show(s) + fmt(", n=%d)", n)), kase);
+		vf::add(W_NLT);
 	}
 	if (form_on(F_B64_N_TIGHT)) {
 		Tight tt(s);
 		malformed_result(decodeBase64((const char*)tt.p, L), "b64_explicit_len", W("decodeBase64(unterminated buffer " + show(s) + fmt(", n=%d)", L)), kase);
+		witness();
 	}
 }
 
@@ -464,29 +532,52 @@ static void check_hex_text(const std::string& s) {
 	std::string kase = "hexbad:" + vf::hex(s);
 	setcur(kase, "crash");
 	vf::add(C_DISTINCT);
-	bool lower = true, anyhex = true;
-	for (size_t i = 0; i < s.size(); i++) { if (!((s[i] >= '0' && s[i] <= '9') || (s[i] >= 'a' && s[i] <= 'f'))) lower = false; if (hexval(s[i]) < 0) anyhex = false; }
-	if (s.size() % 2) { vf::add(W_HEX_ODD); if (s.size() >= 7) vf::add(W_HEX_ODD7); } else vf::add(W_HEX_EVEN);
-	if (!anyhex) vf::add(W_HEX_NONHEX);
+	bool lower = true, anyhex = true, hi = false, ctl = false;
+	for (size_t i = 0; i < s.size(); i++) {
+		unsigned char c = s[i];
+		if (!((c >= '0' && c <= '9') || (c >= 'a' && c <= 'f'))) lower = false;
+		if (hexval(s[i]) < 0) anyhex = false;
+		if (c >= 0x80) hi = true;
+		if (c == 0x7f || (c < 0x20 && !is_ws((char)c))) ctl = true;
+	}
 	if (!form_on(s.size() % 2 ? F_HEX_ODD : F_HEX_EVEN)) return;
 	String t = vfx::A(s);
 	vfx::Flush fl(t);
 	ByteArray r = decodeHex(t);
 	vf::add(C_EVAL);
+	// witnesses: texts that reached the decoder
+	if (s.size() % 2) { vf::add(W_HEX_ODD); if (s.size() >= 7) vf::add(W_HEX_ODD7); } else vf::add(W_HEX_EVEN);
+	if (!anyhex) vf::add(W_HEX_NONHEX);
+	if (hi) vf::add(W_HEX_HI);
+	if (ctl) vf::add(W_HEX_CTL);
 	if (r.length() < 0) { bad("hex_neg_length", "decodeHex(" + show(s) + ") returned length " + fmt("%d", r.length()), kase); asan_clear(); return; }
 	if (asan("hex_oob", W("decodeHex(" + show(s) + ")" + (s.size() % 2 ? fmt(" (odd length %d)", (int)s.size()) : std::string())), kase)) return;
 	Bytes d;
 	if (lower && ref_hexdec(s, d)) { // s is the lowercase-hex text of d
 		vf::add(W_HEX_VALID);
 		if (!same(r, d)) bad("hex_decode", "decodeHex(" + show(s) + ") = " + showarr(r) + ", expected " + vf::hex(d.substr(0, 24)), kase);
+	} else if (ref_hexdec(s, d)) { // complete pairs of hex digits with upper-case letters among them: the same bytes (own signature: the statement only names the lowercase text)
+		vf::add(W_HEX_MIXED);
+		if (!same(r, d)) bad("hex_decode_upper", "decodeHex(" + show(s) + ") = " + showarr(r) + ", expected " + vf::hex(d.substr(0, 24)), kase);
 	}
 }
 
 // ------------------------------------------------------------------------------------------------
 // (U) Url::encode / decode, (Q) params / parseQuery
 // ------------------------------------------------------------------------------------------------
-static void check_url(const Bytes& s, int mode) {
-	std::string kase = fmt("url:%d:", mode) + vf::hex(s);
+// deterministic URL-ish contents of a given length: 0 only characters that are never escaped, 1 only characters that are escaped in component
+// mode (among them '%', '+', '&', '=', UTF-8 and control bytes), 2 alternating
+static Bytes url_content(size_t len, int pat) {
+	static const char PL[] = "abcXYZ019-_.~", ES[] = " %+&=/\xc3\xa9\x01\"<\xff?#";
+	Bytes b(len, 'a');
+	for (size_t i = 0; i < len; i++) {
+		bool plain = pat == 0 || (pat == 2 && i % 2 == 0);
+		b[i] = plain ? PL[(i * 5 + len) % (sizeof PL - 1)] : ES[(i * 3 + len) % (sizeof ES - 1)];
+	}
+	return b;
+}
+static void check_url(const Bytes& s, int mode, const std::string& kase0 = std::string()) {
+	std::string kase = kase0.empty() ? fmt("url:%d:", mode) + vf::hex(s) : kase0;
 	setcur(kase, "crash");
 	vf::add(C_DISTINCT);
 	if (!form_on(F_URL)) return;
@@ -502,6 +593,8 @@ static void check_url(const Bytes& s, int mode) {
 	if (es == s) vf::add(W_URL_PLAIN); else vf::add(W_URL_ESC);
 	if (mode == 1 && es != ref_quote(s, 0)) vf::add(W_URL_MODE);
 	if (es == ref_quote(s, mode)) vf::add(N_URL_STD); // informational: the statement only demands the round trip
+	if (es.size() >= ASL_STR_SPACE) vf::add(W_URL_LONG); // the encoded text does not fit the String's inline buffer
+	if (s.size() >= ASL_STR_SPACE) vf::add(W_URL_IN16);
 	if (vfx::S(d) != s) bad("url_roundtrip", "Url::decode(Url::encode(" + show(s) + fmt(", component=%d)) : encoded ", mode) + show(es) + " decodes to " + show(vfx::S(d)), kase);
 }
 static void check_urldec(const std::string& s) {
@@ -514,12 +607,38 @@ static void check_urldec(const std::string& s) {
 	vfx::Flush fl(in);
 	String d = Url::decode(in);
 	if (asan("url_oob", W("Url::decode(" + show(s) + ")"), kase)) return;
-	if (vfx::S(d) != ref_unquote(s)) vf::add(W_URL_MALFORMED); // a truncated or non-hex escape was met (no value is demanded for it)
+	bool well = true, lowerhex = false; // every '%' followed by two hex digits?
+	for (size_t i = 0; i < s.size(); i++)
+		if (s[i] == '%') {
+			if (i + 2 < s.size() && hexval(s[i + 1]) >= 0 && hexval(s[i + 2]) >= 0) { if (s[i + 1] >= 'a' || s[i + 2] >= 'a') lowerhex = true; i += 2; }
+			else well = false;
+		}
+	if (!well) { vf::add(W_URL_MALFORMED); return; } // a truncated or non-hex escape was met: no value is demanded for it
+	Bytes exp = ref_unquote(s);
+	if (exp.find('\0') != std::string::npos) return; // "%00": the result is not a C string (outside the assumptions)
+	// well-formed percent-coded text, hex digits of either case (own signature: the statement judges decode on encode's output, which is upper case)
+	vf::add(W_URL_WELL); if (lowerhex) vf::add(W_URL_LOWER);
+	if (vfx::S(d) != exp) bad("url_decode_value", "Url::decode(" + show(s) + ") = " + show(vfx::S(d)) + ", RFC 3986 gives " + show(exp), kase);
 }
 typedef std::vector<std::pair<Bytes, Bytes> > Entries;
-static void check_query(const Entries& en) {
-	std::string kase = "query";
-	for (size_t i = 0; i < en.size(); i++) kase += ":" + vf::hex(en[i].first) + ":" + vf::hex(en[i].second);
+// dictionaries of 3 or 4 entries with longer values: E entries (keys: four fixed keys with separators, for E = 3 without number `sub`; variant 2: long keys
+// of distinct lengths), values of length L: variant 0 all alike, variant 1 of lengths L, L+1, 40-L (or 0), 0 with different contents
+static Entries query_gen(int E, int sub, int pat, int L, int var) {
+	static const char* K4[] = { "a", "b&", "%=", "k k" };
+	Entries en;
+	int j = 0;
+	for (int i = 0; i < 4 && j < E; i++) {
+		if (E == 3 && i == sub) continue;
+		Bytes key = var == 2 ? url_content(L + 1 + i, (pat + i) % 3) : Bytes(K4[i]);
+		Bytes val = var != 1 ? url_content(L, pat) : j == 0 ? url_content(L, pat) : j == 1 ? url_content(L + 1, (pat + 1) % 3) : j == 2 ? url_content(L <= 40 ? 40 - L : 0, (pat + 2) % 3) : Bytes();
+		en.push_back(std::make_pair(key, val));
+		j++;
+	}
+	return en;
+}
+static void check_query(const Entries& en, const std::string& kase0 = std::string()) {
+	std::string kase = kase0.empty() ? "query" : kase0;
+	for (size_t i = 0; i < en.size() && kase0.empty(); i++) kase += ":" + vf::hex(en[i].first) + ":" + vf::hex(en[i].second);
 	setcur(kase, "crash");
 	vf::add(C_DISTINCT);
 	if (!form_on(F_QUERY)) return;
@@ -532,8 +651,10 @@ static void check_query(const Entries& en) {
 		model[en[i].first] = en[i].second;
 		if (en[i].second.empty()) vf::add(W_Q_EMPTYV);
 		if ((en[i].first + en[i].second).find_first_of("&=+ %") != std::string::npos) vf::add(W_Q_SPECIAL);
+		if (en[i].second.size() >= ASL_STR_SPACE) vf::add(W_Q_LONGV);
 	}
 	if (model.size() >= 2) vf::add(W_Q_TWO);
+	if (model.size() >= 3) vf::add(W_Q_3);
 	String p = Url::params(d);
 	if (asan("url_oob", W("Url::params(" + ddf() + ")"), kase)) return;
 	Dic<> q;
@@ -555,16 +676,17 @@ static void check_sha(const Bytes& m, const std::string& kase, bool forms) {
 	setcur(kase, "crash");
 	vf::add(C_DISTINCT);
 	size_t n = m.size(), r = n % 64;
-	vf::add(r <= 55 ? W_SHA_1BLK : W_SHA_2BLK);
-	if (r == 55 || r == 56 || r == 63 || r == 0) vf::add(W_SHA_EDGE);
-	if (n >= 128) vf::add(W_SHA_DIRECT);
-	if (n >= (1u << 20)) vf::add(W_SHA_LARGE);
 	if (!form_on(F_SHA)) return;
 	Bytes exp = ref_sha1(m);
 	{
 		Tight t(m);
 		SHA1::Hash h = SHA1::hash(t.p, (int)n);
 		vf::add(C_EVAL);
+		// witnesses: messages that were hashed
+		vf::add(r <= 55 ? W_SHA_1BLK : W_SHA_2BLK);
+		if (r == 55 || r == 56 || r == 63 || r == 0) vf::add(W_SHA_EDGE);
+		if (n >= 128) vf::add(W_SHA_DIRECT);
+		if (n >= (1u << 20)) vf::add(W_SHA_LARGE);
 		if (!asan("sha_oob", W(fmt("SHA1::hash(ptr, %d)", (int)n)), kase) && memcmp(&h[0], exp.data(), 20) != 0)
 			bad("sha1", fmt("SHA1::hash(%d-byte message ", (int)n) + vf::hex(m.substr(0, 16)) + (n > 16 ? "..." : "") + ") = " + vf::hex(&h[0], 20) + ", FIPS 180-4 gives " + vf::hex(exp), kase);
 	}
@@ -585,6 +707,78 @@ static void check_sha(const Bytes& m, const std::string& kase, bool forms) {
 		if (!asan("sha_oob", W("SHA1::hash(String / char*)"), kase) && (memcmp(&h[0], exp.data(), 20) != 0 || memcmp(&h2[0], exp.data(), 20) != 0))
 			bad("sha1", fmt("SHA1::hash(String / char* of %d bytes) = ", (int)n) + vf::hex(&h[0], 20) + " / " + vf::hex(&h2[0], 20) + ", FIPS 180-4 gives " + vf::hex(exp), kase);
 	}
+}
+
+// Messages of 256 MiB and more (the bit length no longer fits 31 / 32 bits): all-zero content, pointer form only. The message is a read-only
+// anonymous mapping (never written, so it costs no memory) that ends exactly at an inaccessible page: a read past the end kills the process,
+// which is reported as a violation of this case.
+struct ZeroMap {
+	unsigned char* base; size_t total; const unsigned char* p;
+	explicit ZeroMap(size_t len) {
+		size_t pg = (size_t)sysconf(_SC_PAGESIZE), body = (len + pg - 1) / pg * pg;
+		total = body + pg;
+		base = (unsigned char*)mmap(0, total, PROT_READ, MAP_PRIVATE | MAP_ANONYMOUS | MAP_NORESERVE, -1, 0);
+		if (base == MAP_FAILED) { fprintf(stderr, "c15: mmap of %lu bytes failed\n", (unsigned long)total); _exit(2); }
+		mprotect(base + body, pg, PROT_NONE);
+		p = base + body - len;
+	}
+	~ZeroMap() { munmap(base, total); }
+};
+static std::vector<size_t> zero_lengths(bool thorough) {
+	std::vector<size_t> v;
+	const size_t b28 = (size_t)1 << 28, b29 = (size_t)1 << 29;
+	v.push_back(b28 - 1); v.push_back(b28); v.push_back(b28 + 1); v.push_back(b29 + 1);
+	if (thorough) { v.push_back(b29 - 1); v.push_back(b29); v.push_back(b29 + b28); v.push_back(2 * b29 + 1); v.push_back(4 * b29 - 1); } // ... to the largest int
+	return v;
+}
+static Bytes zero_ref(size_t len) { // reference digest: computed once in the parent (and confirmed by python) when it is one of the registered lengths
+	for (int i = 0; SH && i < MAXZERO; i++) if (len && SH->zlen[i] == len) return Bytes((const char*)SH->zref[i], 20);
+	ZeroMap z(len);
+	return ref_sha1(z.p, len);
+}
+static void check_sha_zero(size_t len) {
+	std::string kase = fmt("shazero:%lu", (unsigned long)len);
+	setcur(kase, "crash");
+	vf::add(C_DISTINCT);
+	if (len > 0x7fffffffu) { fprintf(stderr, "c15: %s: the length does not fit the int parameter\n", kase.c_str()); exit(2); }
+	if (!form_on(F_SHA)) return;
+	Bytes exp = zero_ref(len);
+	ZeroMap z(len);
+	setsig("sha_oob");
+	SHA1::Hash h = SHA1::hash(z.p, (int)len);
+	setsig("crash");
+	vf::add(C_EVAL);
+	size_t r = len % 64;
+	vf::add(r <= 55 ? W_SHA_1BLK : W_SHA_2BLK);
+	if (r == 55 || r == 56 || r == 63 || r == 0) vf::add(W_SHA_EDGE);
+	vf::add(W_SHA_DIRECT); vf::add(W_SHA_LARGE);
+	if (len >= ((size_t)1 << 28)) vf::add(W_SHA_HUGE);
+	if (len >> 29) vf::add(W_SHA_HIGHWORD); // 8 * len >= 2^32: a correct bit count has a non-zero high word
+	if (!asan("sha_oob", W(fmt("SHA1::hash(ptr, %lu)", (unsigned long)len)), kase) && memcmp(&h[0], exp.data(), 20) != 0)
+		bad(len >= ((size_t)1 << 28) ? "sha1_huge_message" : "sha1", fmt("SHA1::hash(%lu zero bytes [8 * length = 0x%llx]) = ", (unsigned long)len, (unsigned long long)len * 8) + vf::hex(&h[0], 20) + ", FIPS 180-4 gives " + vf::hex(exp), kase);
+}
+
+// The memory oracle must be live, otherwise every "stays in bounds" judgement is vacuous: deliberate overruns of the three buffer kinds the harness
+// uses (exact-size block, String with poisoned slack, NUL-terminated exact-size block) and one 1-byte write overrun must each be reported through the
+// callback and classified as read / write. Runs in a sacrificial sub-process.
+static void asan_selftest() {
+	setcur("selftest", "crash");
+	volatile unsigned char sink = 0;
+	{ Tight t(Bytes("abc")); volatile const unsigned char* q = t.p; asan_clear(); sink = sink + q[3]; if (a_flag && !a_corrupting && strstr(a_msg, "heap-buffer-overflow")) vf::add(W_SELF_READ); }
+	{ String s = vfx::A("abc"); vfx::Flush fl(s); volatile const char* q = *s; asan_clear(); sink = sink + q[5]; if (a_flag && !a_corrupting) vf::add(W_SELF_POISON); }
+	{ String s = vfx::A(Bytes(40, 'x')); vfx::Flush fl(s); volatile const char* q = *s; asan_clear(); sink = sink + q[41]; if (a_flag && !a_corrupting) vf::add(W_SELF_POISON); }
+	{ vfx::FlushBuf fb("abc"); volatile const char* q = fb.p; asan_clear(); sink = sink + q[4]; if (a_flag && !a_corrupting) vf::add(W_SELF_READ); }
+	{ // the inaccessible page behind a mapped message: the overrun must kill the (grand)child
+		fflush(stdout); fflush(stderr);
+		pid_t pid = fork();
+		if (pid == 0) { ZeroMap z(5000); volatile const unsigned char* q = z.p; sink = sink + q[4999]; sink = sink + q[5000]; _exit(0); }
+		int st = 0;
+		while (pid > 0 && waitpid(pid, &st, 0) < 0 && errno == EINTR) {}
+		if (pid > 0 && !(WIFEXITED(st) && WEXITSTATUS(st) == 0)) vf::add(W_SELF_GUARD);
+	}
+	{ Tight t(Bytes(24, 'x')); volatile unsigned char* q = t.p; asan_clear(); q[24] = 1; if (a_flag && a_corrupting && strstr(a_msg, "WRITE")) vf::add(W_SELF_WRITE); }
+	asan_clear();
+	_exit(0); // the write overrun may have damaged allocator metadata: no destructors, no further cases in this process
 }
 
 // ------------------------------------------------------------------------------------------------
@@ -666,6 +860,12 @@ static void crosscheck_python() {
 		xfile(f, nfile, "sha1", g, ref_sha1(g)); xfile(f, nfile, "sha1", g1, ref_sha1(g1));
 		lines += 7;
 	}
+	for (int i = 0; i < MAXZERO; i++) // all-zero messages of 256 MiB and more: python hashes the same number of zero bytes
+		if (SH->zlen[i]) { fprintf(f, "Z:sha1 %llu %s\n", (unsigned long long)SH->zlen[i], vf::hex(SH->zref[i], 20).c_str()); lines++; }
+	{ // hex text with upper-case digits
+		std::vector<Bytes> hs = strings_upto("09aFbC", 4);
+		for (size_t i = 0; i < hs.size(); i++) { Bytes d; if (hs[i].empty() || !ref_hexdec(hs[i], d)) continue; fprintf(f, "hexd %s %s\n", hx(hs[i]).c_str(), hx(d).c_str()); lines++; }
+	}
 	for (size_t len = 1025; len <= 4200; len += 61) { Bytes d = content(len, 3); fprintf(f, "sha1 %s %s\n", hx(d).c_str(), hx(ref_sha1(d)).c_str()); lines++; }
 	// percent-coding: every single byte, every string <= 3 over the URL alphabet, both modes; decoding of well-formed text
 	std::vector<Bytes> us = strings_upto(AURL, 3);
@@ -715,6 +915,9 @@ static void run_case(const std::string& k) {
 	else if (k.compare(0, 7, "hexbad:") == 0) check_hex_text(vf::unhex(k.substr(7)));
 	else if (k.compare(0, 4, "url:") == 0) check_url(vf::unhex(k.substr(6)), k[4] - '0');
 	else if (k.compare(0, 7, "urldec:") == 0) check_urldec(vf::unhex(k.substr(7)));
+	else if (k.compare(0, 7, "urlgen:") == 0) { int mode = 0, pat = 0, len = 0; sscanf(k.c_str() + 7, "%d:%d:%d", &mode, &pat, &len); check_url(url_content(len, pat), mode, k); }
+	else if (k.compare(0, 9, "querygen:") == 0) { int E = 3, sub = 0, pat = 0, L = 0, var = 0; sscanf(k.c_str() + 9, "%d:%d:%d:%d:%d", &E, &sub, &pat, &L, &var); check_query(query_gen(E, sub, pat, L, var), k); }
+	else if (k.compare(0, 8, "shazero:") == 0) check_sha_zero(strtoull(k.c_str() + 8, 0, 10));
 	else if (k.compare(0, 5, "query") == 0) check_query(parse_query_case(k));
 	else if (k.compare(0, 4, "sha:") == 0) check_sha(vf::unhex(k.substr(4)), k, true);
 	else if (k.compare(0, 7, "shagen:") == 0) { unsigned long len; int kind; sscanf(k.c_str() + 7, "%lu:%d", &len, &kind); check_sha(content(len, kind), k, true); }
@@ -746,9 +949,36 @@ int main(int argc, char** argv) {
 	for (int k = 0; k < NSIGS; k++) C_SIG[k] = vf::counter((std::string("failures.") + SIGS[k]).c_str());
 	C_RESTARTS = vf::counter("subprocesses_replaced_after_memory_corruption_or_death"); C_SKIPPED = vf::counter("calls_skipped_after_form_limit");
 	N_URL_STD = vf::counter("url_encode_equals_rfc3986_reference"); N_B64_LARGE = vf::counter("arrays_longer_than_4096");
+	C_SKIP_POISON = vf::counter("calls_skipped_in_a_case_after_its_memory_corrupting_failure");
+	W_ARRN = vf::counter("w.encode_fixed_size_Array__overloads"); W_ARR20 = vf::counter("w.encode_fixed_size_Array__of_20_bytes");
+	W_B64_HI = vf::counter("w.b64_text_with_byte_0x80_or_above_decoded"); W_B64_CTL = vf::counter("w.b64_text_with_control_byte_or_DEL_decoded");
+	W_HEX_HI = vf::counter("w.hex_text_with_byte_0x80_or_above_decoded"); W_HEX_CTL = vf::counter("w.hex_text_with_control_byte_or_DEL_decoded");
+	W_WS_N = vf::counter("w.b64_whitespace_text_with_explicit_length"); W_WS_N4 = vf::counter("w.b64_text_with_4_or_more_whitespace_and_explicit_length_in_longer_buffer");
+	W_URL_LONG = vf::counter("w.url_encoded_text_beyond_inline_string_buffer"); W_URL_IN16 = vf::counter("w.url_input_of_16_bytes_or_more");
+	W_Q_3 = vf::counter("w.query_three_or_more_entries"); W_Q_LONGV = vf::counter("w.query_value_of_16_bytes_or_more");
+	W_HEX_MIXED = vf::counter("w.hex_valid_with_uppercase_compared"); W_URL_WELL = vf::counter("w.url_decode_wellformed_text_value_compared"); W_URL_LOWER = vf::counter("w.url_decode_lowercase_escape_value_compared");
+	W_SHA_HUGE = vf::counter("w.sha_message_256MiB_or_more"); W_SHA_HIGHWORD = vf::counter("w.sha_bit_length_needs_high_count_word");
+	W_SELF_READ = vf::counter("w.selftest_asan_reports_read_overrun"); W_SELF_WRITE = vf::counter("w.selftest_asan_reports_write_overrun_as_corrupting");
+	W_SELF_POISON = vf::counter("w.selftest_asan_reports_read_of_poisoned_string_slack"); W_SELF_GUARD = vf::counter("w.selftest_guard_page_kills_overrun_of_mapped_message");
 	if (vf::opt.replay) { vf::parallel(1, [&](uint64_t) { run_case(vf::opt.kase); }); return vf::finish(); }
 	bool T = vf::opt.thorough();
 
+	// ---- the memory oracle is live (otherwise: harness error, nothing below would mean anything) ------
+	if (!vf::have_asan()) { fprintf(stderr, "c15: built without AddressSanitizer: the in-bounds part of the property cannot be judged\n"); return 2; }
+	run_cases(1, [&](uint64_t) { asan_selftest(); });
+	if (vf::get(W_SELF_READ) != 2 || vf::get(W_SELF_WRITE) != 1 || vf::get(W_SELF_POISON) != 2 || vf::get(W_SELF_GUARD) != 1 || vf::nviolations()) {
+		fprintf(stderr, "c15: AddressSanitizer self-test failed (read overruns reported %d/2, write overrun %d/1, poisoned slack %d/2, guard page %d/1): the memory oracle is not live\n",
+		        (int)vf::get(W_SELF_READ), (int)vf::get(W_SELF_WRITE), (int)vf::get(W_SELF_POISON), (int)vf::get(W_SELF_GUARD));
+		return 2;
+	}
+	// reference digests of the huge all-zero messages (in parallel; each worker reads its own mapping), confirmed by python below
+	{
+		std::vector<size_t> zl = zero_lengths(T);
+		if (zl.size() > MAXZERO) { fprintf(stderr, "c15: MAXZERO\n"); return 2; }
+		vf::parallel(zl.size(), [&](uint64_t i) { size_t len = zl[zl.size() - 1 - i]; ZeroMap z(len); Bytes r = ref_sha1(z.p, len); memcpy(SH->zref[zl.size() - 1 - i], r.data(), 20); });
+		for (size_t i = 0; i < zl.size(); i++) SH->zlen[i] = zl[i];
+	}
+	lap("selftest+zero-refs");
 	crosscheck_python();
 	lap("python");
 
@@ -793,6 +1023,12 @@ int main(int argc, char** argv) {
 		for (int a = 0; a < 256; a += T ? 1 : 5) ws.push_back(Bytes(1, (char)a));
 		for (size_t len = 2; len <= 6; len++) for (int k = 0; k < NKIND; k++) ws.push_back(content(len, k));
 		for (size_t i = 0; i < ws.size(); i++) ws_insertions(texts, ref_b64enc(ws[i]), T ? 3 : 2, 0, "", 0);
+		for (size_t i = 0; i < ws.size(); i++) // four and more whitespace characters (a whole group's worth): after every symbol, as a run at either end and in the middle
+			for (int c = 0; c < 4; c++) {
+				std::string t = ref_b64enc(ws[i]), a, run(4, WS[c]), mixed = std::string(WS, 4) + WS[c];
+				for (size_t k = 0; k < t.size(); k++) { a += t[k]; a += WS[(c + k) % 4]; }
+				texts.push_back(a); texts.push_back(run + t); texts.push_back(t + run); texts.push_back(t.substr(0, t.size() / 2) + mixed + t.substr(t.size() / 2));
+			}
 		run_cases(texts.size(), [&](uint64_t i) { check_ws_text(texts[i], "b64ws:" + vf::hex(texts[i])); });
 	}
 	lap("whitespace");
@@ -819,6 +1055,22 @@ int main(int argc, char** argv) {
 		check_hex_text(s);
 	});
 	lap("hextexts");
+	// ---- (B) every byte value in the decoders: all 1- and 2-byte texts over 1..255; every byte 1..255 substituted at every position of three fixed texts ----
+	{
+		std::vector<std::string> tb, th;
+		for (int a = 1; a < 256; a++) tb.push_back(std::string(1, (char)a));
+		for (int a = 1; a < 256; a++) for (int b = 1; b < 256; b++) tb.push_back(bytes2(a, b));
+		th = tb;
+		const char* b64base[] = { "QUJDREVG", "QUJDRA==", "A!=z\n+/ " }, *hexbase[] = { "0a1b2c3d", "0a1B2c3", "0g 1-2Z!" }; // valid / padded / junk; valid / odd (7) / junk
+		for (int k = 0; k < 3; k++)
+			for (int v = 1; v < 256; v++) {
+				for (size_t pos = 0; pos < strlen(b64base[k]); pos++) { std::string t = b64base[k]; t[pos] = (char)v; tb.push_back(t); }
+				for (size_t pos = 0; pos < strlen(hexbase[k]); pos++) { std::string t = hexbase[k]; t[pos] = (char)v; th.push_back(t); }
+			}
+		run_cases(tb.size(), [&](uint64_t i) { check_b64_text(tb[i]); });
+		run_cases(th.size(), [&](uint64_t i) { check_hex_text(th[i]); });
+	}
+	lap("allbytes");
 
 	// ---- (U) percent-coding ------------------------------------------------------------------------
 	run_cases(count_upto(AURL, T ? 6 : 5) * 2, [&](uint64_t i) { check_url(shortlex(AURL, i / 2), (int)(i % 2)); });
@@ -828,6 +1080,13 @@ int main(int argc, char** argv) {
 		check_url(s, (int)(i % 2));
 	});
 	run_cases(count_upto(AUDEC, T ? 8 : 6), [&](uint64_t i) { check_urldec(shortlex(AUDEC, i)); });
+	{ // every length 0..Umax (far beyond the String's inline buffer) x {nothing escaped, everything escaped, alternating} x both modes
+		uint64_t Umax = T ? 2000 : 300;
+		run_cases((Umax + 1) * 6, [&](uint64_t i) {
+			int len = (int)(i / 6), pat = (int)(i % 6 / 2), mode = (int)(i % 2);
+			check_url(url_content(len, pat), mode, fmt("urlgen:%d:%d:%d", mode, pat, len));
+		});
+	}
 	lap("url");
 	// ---- (Q) query dictionaries ----------------------------------------------------------------------
 	{
@@ -849,6 +1108,14 @@ int main(int argc, char** argv) {
 			Entries e; e.push_back(std::make_pair(k2[pairs[p].first], v2[a])); e.push_back(std::make_pair(k2[pairs[p].second], v2[b]));
 			check_query(e);
 			if (a == 0 && b == 1) { Entries r; r.push_back(e[1]); r.push_back(e[0]); check_query(r); } // insertion order must not matter
+		});
+	}
+	{ // 3 and 4 entries, values (and keys) of every length 0..Qmax
+		int Qmax = T ? 120 : 40;
+		run_cases((uint64_t)5 * 3 * 3 * (Qmax + 1), [&](uint64_t i) {
+			int L = (int)(i % (Qmax + 1)), var = (int)(i / (Qmax + 1) % 3), pat = (int)(i / (Qmax + 1) / 3 % 3), sub = (int)(i / (Qmax + 1) / 9); // sub 0..3: three entries, 4: all four
+			int E = sub == 4 ? 4 : 3;
+			check_query(query_gen(E, sub, pat, L, var), fmt("querygen:%d:%d:%d:%d:%d", E, sub, pat, L, var));
 		});
 	}
 	lap("query");
@@ -873,17 +1140,22 @@ int main(int argc, char** argv) {
 		});
 	}
 	lap("sha1");
+	{ // 256 MiB and more: bit lengths around 2^31 and 2^32 (largest first)
+		std::vector<size_t> zl = zero_lengths(T);
+		vf::parallel(zl.size(), [&](uint64_t i) { check_sha_zero(zl[zl.size() - 1 - i]); });
+	}
+	lap("sha1-huge");
 
 	for (int f = 0; f < NFORMS; f++) {
 		if (SH->form_poison[f] >= FORM_LIMIT) vf::cap_hit(fmt("%s: no longer exercised after %d memory-corrupting failures", FORM_NAME[f], (int)FORM_LIMIT));
 		if (SH->form_poison[f]) vf::setinfo(std::string("memory_corrupting_failures:") + FORM_NAME[f], fmt("%u", SH->form_poison[f]));
 	}
-	vf::sample("bytes:f0ff -> encodeBase64 == \"8P8=\" (RFC 4648), encodeHex == \"f0ff\", decodeBase64(String / char* / char*,n / unterminated buffer,n) and decodeHex give back f0ff");
-	vf::sample("b64ws: \"8 P\\n8\\t=\" and every other placement of <= 2 (thorough 3) of {space,LF,CR,TAB} in the texts of arrays <= 6 bytes; CRLF/76, LF/64 and space/1 layouts for every length");
-	vf::sample("b64bad: every string <= 8 over \"A/+= \\n!z\" e.g. \"=====\", \"A=A=\", \"!z\\n=\" through decodeBase64(String), (char*), (char*, every n < strlen), (unterminated, n)");
-	vf::sample("hexbad: every string <= 8 over \"09aFg \" e.g. \"0a9\" (odd), \"0g\", \"a a\"; every length 0..299 of digit strings");
-	vf::sample("url: Url::decode(Url::encode(s, mode)) for every s <= 5 over {a,space,%,+,&,=,/,0xC3,0xA9,0x01,~}, every 1- and 2-byte string; urldec: every string <= 6 over \"%a0Fg+\\xc3\"");
-	vf::sample("query: Url::parseQuery(Url::params({\"a&\": \"=\", \"%+\": \"\"})) and every other dictionary of 0, 1 (key <= 3, value <= 2) or 2 (keys <= 2, values <= 1) entries");
-	vf::sample("sha: every message <= 2 bytes; every length 0..1024 x 5 contents; 2^k-1,2^k,2^k+1 up to 8 MiB; 65530..65600; lengths = 54..65 mod 64 near 1,2,4,8 MiB");
+	vf::sample("bytes:f0ff -> encodeBase64 == \"8P8=\" (RFC 4648), encodeHex == \"f0ff\" (pointer, ByteArray, String and Array_<byte,2> forms; Array_<byte,N> for N = 1,2,3,4,20), decodeBase64(String / char* / char*,n / unterminated buffer,n) and decodeHex give back f0ff");
+	vf::sample("b64ws: \"8 P\\n8\\t=\" and every other placement of <= 2 (thorough 3) of {space,LF,CR,TAB} in the texts of arrays <= 6 bytes, plus whitespace after every symbol and runs of 4-5 at the start, end and middle, each as String, char*, (char* in a longer buffer, n) and (unterminated buffer, n); CRLF/76, LF/64 and space/1 layouts for every length (explicit-length forms up to 4096 bytes)");
+	vf::sample("b64bad: every string <= 8 over \"A/+= \\n!z\" e.g. \"=====\", \"A=A=\", \"!z\\n=\"; every 1- and 2-byte string over 0x01..0xff; every byte 0x01..0xff at every position of \"QUJDREVG\", \"QUJDRA==\", \"A!=z\\n+/ \"; through decodeBase64(String), (char*), (char*, every n < strlen), (unterminated, n)");
+	vf::sample("hexbad: every string <= 8 over \"09aFg \" e.g. \"0a9\" (odd), \"0g\", \"a a\", \"0F\" (value compared); every length 0..299 of digit strings; every 1- and 2-byte string over 0x01..0xff; every byte at every position of \"0a1b2c3d\", \"0a1B2c3\", \"0g 1-2Z!\"");
+	vf::sample("url: Url::decode(Url::encode(s, mode)) for every s <= 5 over {a,space,%,+,&,=,/,0xC3,0xA9,0x01,~}, every 1- and 2-byte string, every length 0..300 x {plain, all escaped, alternating}; urldec: every string <= 6 over \"%a0Fg+\\xc3\" (value compared when every % has two hex digits)");
+	vf::sample("query: Url::parseQuery(Url::params({\"a&\": \"=\", \"%+\": \"\"})) and every other dictionary of 0, 1 (key <= 3, value <= 2) or 2 (keys <= 2, values <= 1) entries; 3 and 4 entries over keys {a, b&, %=, k k} or long keys with values of every length 0..40");
+	vf::sample("sha: every message <= 2 bytes; every length 0..1024 x 5 contents; 2^k-1,2^k,2^k+1 up to 8 MiB; 65530..65600; lengths = 54..65 mod 64 near 1,2,4,8 MiB; zero messages of 2^28-1, 2^28, 2^28+1, 2^29+1 bytes (thorough: to 2^31-1)");
 	return vf::finish();
 }
